@@ -795,7 +795,12 @@ class DAGRunConcurrentManager(DAGRunManagerLike):
         max_iterations = self.dag.graph.nodes[node_id].get(NodeField.max_iterations)
 
         recurrent_subgraph = get_connected_subgraph(
-            self.dag.graph, start_from_node_id, node_id, is_recurrent=True, is_oneof=dag.is_oneof,
+            self.dag.graph,
+            start_from_node_id,
+            node_id,
+            is_recurrent=True,
+            is_oneof=dag.is_oneof,
+            is_nested_oneof=dag.is_nested_oneof,
         )
 
         # Everything between the start node and the destination is invalidated by a restart
